@@ -3813,6 +3813,14 @@ Case_BaseLdurStur:
         if (!size_op.is_valid())
           goto InvalidInstruction;
 
+        // The size comes from the destination of a narrowing instruction and from the sources of a long instruction,
+        // so the other side has to be checked against it (both sources have the same signature).
+        if ((inst_flags & InstDB::kInstFlagNarrow) && !check_wide_operand(o0, o1, inst_flags))
+          goto InvalidInstruction;
+
+        if ((inst_flags & InstDB::kInstFlagLong) && !check_wide_operand(o1, o0, inst_flags))
+          goto InvalidInstruction;
+
         opcode.reset(op_data.opcode());
         opcode.add_imm(size_op.qs(), 30);
         opcode.add_imm(size_op.scalar(), 28);
